@@ -280,7 +280,18 @@ def run(ctx) -> None:
         # the iteration order of a set or dict keyed by strings; the file collects idioms where a check MERGES several operands
         hs = d / "hashseed"
         hs.mkdir()
-        (hs / "pyproject.toml").write_text("")
+        # several amend tables naming the SAME codes / categories for different paths: whatever collection refurb keeps them in,
+        # its iteration order (a function of the string-hash seed) must not decide which of them applies
+        (hs / "pyproject.toml").write_text(
+            "[tool.refurb]\n"
+            + "".join(f'\n[[tool.refurb.amend]]\npath = "{p_}"\nignore = {ig}\n' for p_, ig in [
+                ("legacy", '["FURB109", "FURB123"]'), ("vendor", '["FURB109", "#readability"]'), ("third/party", '["FURB109", "FURB123", "FURB105"]'),
+                ("legacy/sub", '["FURB105"]'), ("vendor", '["FURB123"]')])
+        )
+        amend_body = 'x = 1 in [1, 2]\ny = int(0)\nprint("")\nz = not not x\n'
+        for rel_ in ("legacy/a.py", "legacy/sub/b.py", "vendor/c.py", "third/party/d.py", "third/e.py", "free.py"):
+            (hs / rel_).parent.mkdir(parents=True, exist_ok=True)
+            (hs / rel_).write_text(amend_body)
         (hs / "merge.py").write_text(
             "import os\n"
             "def m(line: str, s: str, x: object, n: int, d1: dict[str, int], d2: dict[str, int], names: list[str]) -> None:\n"
@@ -298,7 +309,7 @@ def run(ctx) -> None:
         (hs / "clone_159.py").write_bytes((core.REPO / "test" / "data" / "err_159.py").read_bytes())
         seeds = ["0", "1", "2", "3", "42"] if ctx.quick else [str(k) for k in range(12)]
         with ThreadPoolExecutor(8) as ex:
-            houts = list(ex.map(lambda sd: core.refurb_cli(["merge.py", "clone_159.py", "--enable-all", "--quiet"], cwd=hs, env_extra={"PYTHONHASHSEED": sd}), seeds))
+            houts = list(ex.map(lambda sd: core.refurb_cli(["merge.py", "clone_159.py", "legacy", "vendor", "third", "free.py", "--enable-all", "--quiet"], cwd=hs, env_extra={"PYTHONHASHSEED": sd}), seeds))
         for sd, o in zip(seeds[1:], houts[1:]):
             res.case(("hashseed", sd))
             res.bump("hashseed_runs")
@@ -308,7 +319,7 @@ def run(ctx) -> None:
                 res.violate(
                     f"the report depends on the interpreter's string-hash seed (PYTHONHASHSEED={seeds[0]} vs {sd}): {diff[:1]}",
                     {"kind": "hash-seed-dependent"},
-                    {"files": {"merge.py": (hs / "merge.py").read_text()}, "argv": ["merge.py", "--enable-all", "--quiet"], "env": {"PYTHONHASHSEED": [seeds[0], sd]}, "differing_lines": diff,
+                    {"files": {"merge.py": (hs / "merge.py").read_text(), "pyproject.toml": (hs / "pyproject.toml").read_text(), "legacy/a.py, legacy/sub/b.py, vendor/c.py, third/party/d.py, third/e.py, free.py": amend_body}, "argv": ["merge.py", "legacy", "vendor", "third", "free.py", "--enable-all", "--quiet"], "env": {"PYTHONHASHSEED": [seeds[0], sd]}, "differing_lines": diff,
                      "how": "write merge.py into an empty directory (plus an empty pyproject.toml) and run `PYTHONHASHSEED=<n> python -m refurb merge.py --enable-all --quiet` with both values"},
                 )
                 break
